@@ -139,13 +139,15 @@ func lockRules(c *Ctx, p *Program, label string) {
 func checkC17(c *Ctx) {
 	p := c.P
 	c.Level = "other"
-	c.Explain = "C17 (lifecycle histories and schedules) is decided on the lock, typestate and sibling structure every history relies on, not by enumerating histories: all-paths lock state of every function and goroutine closure of the process-backed driver (no re-acquire of a held mutex — the source of 'Open blocks forever', no release without hold, no exit while held, no call that re-acquires); a frozen guarded-by table for the fields shared with the driver's goroutines; stop acknowledged only after the listener is cleared under the write lock, listener invoked only under the read lock, stop returns only after the acknowledgement; in-memory driver: everything the stop closure writes is re-initialised by Listen, pointer fields the constructor leaves nil are dereferenced only under a nil test, Send consults the stop flag; all Port implementations: Open/Close are no-ops in the target state, Send is guarded by the open test returning ErrPortClosed. Not decided: exactly-once/in-order delivery across goroutines, races outside the table, liveness of the busy-wait loop."
+	c.Explain = "C17 (lifecycle histories and schedules) is decided on the lock, typestate and sibling structure every history relies on, not by enumerating histories: all-paths lock state of every function and goroutine closure of the process-backed driver (no re-acquire of a held mutex — the source of 'Open blocks forever', no release without hold, no exit while held, no call that re-acquires); a frozen guarded-by table for the fields shared with the driver's goroutines; stop acknowledged only after the listener is cleared under the write lock, listener invoked only under the read lock, stop returns only after the acknowledgement; in-memory driver: everything the stop closure writes is re-initialised by Listen, pointer fields the constructor leaves nil are dereferenced only under a nil test, Send consults the stop flag; all Port implementations: Open/Close are no-ops in the target state, Send is guarded by the open test returning ErrPortClosed. Not decided: exactly-once/in-order delivery across goroutines, races outside the table, liveness — that Close / stop return at all (e.g. a Close that waits for the helper process while nobody drains its output pipe any more), the busy-wait loop."
 	c.Trusted = []string{"go/ssa", "sync.(RW)Mutex semantics (non-reentrant)", "frozen guarded-by table in props_c17.go"}
 	c.Rule("C17.1", "lock pairing on all paths in every function and goroutine closure of the process-backed driver (linux and windows file sets)", 8)
 	c.Rule("C17.2", "guarded-by: hasProc/listener (in), cmd/wr/rd (out), opened (Driver) are read with the owner's mutex held and written with it write-held", 15)
 	c.Rule("C17.3", "stop is acknowledged after the listener is cleared under the write lock; the listener is invoked only under the read lock; the stop function returns only after the acknowledgement; when the helper process cannot be started, every state field the start routine had set is reset before it returns the error (otherwise Close waits for goroutines that were never started)", 5)
 	c.Rule("C17.6", "the process-backed in port delivers what the helper writes: its reader goroutine hands every line to the line decoder, whose read discipline and size limits are C19.3 / C19.6 (one-byte reads with checked count, one record per call, no line-length limit below a 2000-byte message)", 4)
 	c.include(checkC19, map[string]string{"C19.3": "C17.6", "C19.6": "C17.6"})
+	c.Rule("C17.7", "the sending wrapper (midi.SendTo) keeps no verdict of its own: the function it returns is called three times in a row on an arbitrary port, whatever the port's Send returned before; every call hands its message to the port exactly once (\"sending on a closed port reports the error\" and \"sent while open reaches the listener\" are the port's decisions at the time of each call)", 1)
+	sendToRule(c, "C17.7", 3)
 	c.Rule("C17.4", "in-memory driver typestate: fields written by the stop closure are re-initialised by Listen on every path; nil-able pointer fields are dereferenced only under a nil test; Send consults the stop flag before feeding the decoder", 3)
 	c.Rule("C17.5", "siblings: every Port implementation's Open (Close) returns nil without effects when already open (closed); every Out.Send reaches the transport only through the open test whose failing edge returns ErrPortClosed", 10)
 
